@@ -50,7 +50,7 @@ def parts(tier):
     if tier == "quick":
         return [("d3-all-plain", "h_c09_plain", ["--depth=3", "--maxconn=2"], 75),
                 ("d3-core-asan", "h_c09", ["--depth=3", "--maxconn=2"] + core, 55),
-                ("d4-core-plain", "h_c09_plain", ["--depth=4", "--maxconn=2"] + core, 75)]
+                ("d4-core-plain", "h_c09_plain", ["--depth=4", "--maxconn=2"] + core, 90)]
     return [("d4-all-plain", "h_c09_plain", ["--depth=4", "--maxconn=2"], 650),
             ("d3-all-asan", "h_c09", ["--depth=3", "--maxconn=2"], 200),
             ("d4-core-asan", "h_c09", ["--depth=4", "--maxconn=2"] + core, 600),
